@@ -8,6 +8,7 @@ import (
 	"encoding/hex"
 	"fmt"
 	"math/rand"
+	"strings"
 	"sync"
 
 	crypto "github.com/onflow/crypto"
@@ -250,9 +251,10 @@ func Run(seed int64, goroutines, perG int, buggyShared bool) []Event {
 		close(start)
 		wg.Wait()
 	}
+	// one volley per kind of operation and key index (e.g. bls.VerifyPOP/2, bls.Sign/1, ecdsa.Verify/0)
 	seen := map[string]bool{}
+	var volleys []op
 	for _, o := range ops {
-		// one volley per kind of operation and key index (e.g. bls.VerifyPOP/2, bls.Sign/1, ecdsa.Verify/0)
 		k := o.key
 		if idx := len(k) - 1; idx > 0 && k[idx-1] == '/' && len(k) > 3 {
 			if j := lastSlashBefore(k, idx-1); j > 0 {
@@ -261,6 +263,41 @@ func Run(seed int64, goroutines, perG int, buggyShared bool) []Event {
 		}
 		if !seen[k] {
 			seen[k] = true
+			volleys = append(volleys, o)
+		}
+	}
+	// several rounds, each on FRESH key objects, each led by another kind of operation whose result alone is `true` for the right
+	// key: whatever a key object does on its first use (under concurrency here) then shows in a verdict that should be positive.
+	// Operations whose result is `false` by construction (wrong key) come last: a disturbed read would not change their result.
+	leaders := []string{"bls.Verify/", "bls.VerifyPOP/", "bls.SPOCKVerify/", "bls.VerifyOneMessage", "bls.VerifyManyMessages", "bls.BatchVerify"}
+	for round := 0; round < len(leaders); round++ {
+		if round > 0 {
+			rsk, rpk := mkKeys()
+			copy(blsSK, rsk)
+			copy(blsPK, rpk)
+		}
+		lead := leaders[(round+int(seed%6+6))%len(leaders)]
+		var first, mid, last []op
+		for _, o := range volleys {
+			switch {
+			case strings.HasPrefix(o.key, lead):
+				first = append(first, o)
+			case strings.HasPrefix(o.key, "bls.VerifyWrongKey/"):
+				last = append(last, o)
+			default:
+				mid = append(mid, o)
+			}
+		}
+		if round > 0 { // later rounds: the leader and the other BLS verifications only
+			var m2 []op
+			for _, o := range mid {
+				if strings.HasPrefix(o.key, "bls.") && !strings.HasPrefix(o.key, "bls.Sign/") {
+					m2 = append(m2, o)
+				}
+			}
+			mid, last = m2, nil
+		}
+		for _, o := range append(append(first, mid...), last...) {
 			volley(o)
 		}
 	}
